@@ -834,6 +834,8 @@ impl<'forest, I: Interner> SolveState<'forest, I> {
         &mut self,
         mut canonical_strand: CanonicalStrand<I>,
     ) -> Result<(), RootSearchFail> {
+        #[cfg(chalk_verif)]
+        chalk_ir::verif::probe("slg.coinductive_cycle");
         // This is a co-inductive cycle. That is, this table
         // appears somewhere higher on the stack, and has now
         // recursively requested an answer for itself. This
@@ -885,6 +887,8 @@ impl<'forest, I: Interner> SolveState<'forest, I> {
         canonical_strand: CanonicalStrand<I>,
         minimums: Minimums,
     ) -> Result<(), RootSearchFail> {
+        #[cfg(chalk_verif)]
+        chalk_ir::verif::probe("slg.positive_cycle");
         // We can't take this because we might need it later to clear the cycle
         let selected_subgoal = canonical_strand.value.selected_subgoal.as_ref().unwrap();
 
@@ -1118,6 +1122,8 @@ impl<'forest, I: Interner> SolveState<'forest, I> {
             return None;
         }
 
+        #[cfg(chalk_verif)]
+        chalk_ir::verif::probe("slg.refinement_strand");
         let num_universes = self.forest.tables[table].table_goal.universes;
         let (
             mut infer,
@@ -1234,6 +1240,8 @@ impl<'forest, I: Interner> SolveState<'forest, I> {
             if cyclic_minimums.negative < TimeStamp::MAX {
                 // This is a negative cycle.
                 self.unwind_stack();
+                #[cfg(chalk_verif)]
+                chalk_ir::verif::probe("slg.negative_cycle");
                 return Err(RootSearchFail::NegativeCycle);
             }
 
